@@ -1058,7 +1058,8 @@ def is_blocking(node: ast.AST, parent_type: ast.AST = None) -> bool:
         try:
             test_value = literal_value(node.test)
         except ValueError:
-            pass
+            # The loop may run zero times, so code after it can be reached
+            return False
         else:
             if not test_value:
                 return False
